@@ -188,6 +188,31 @@ def bfs(report, which, n_movable):
                 if seen[c["_to"]][0] != out:
                     fps.add("path-dependent-bytes")
         frontier = nxt_frontier
+    # one-shot permutations: a single reorder_glyphs call may apply *any* permutation, not only a
+    # transposition -- from the initial font and from one non-initial state to every order
+    bases = [(start, data0), (tuple(reversed(start)), seen[tuple(reversed(start))][0])] if tuple(reversed(start)) in seen else [(start, data0)]
+    cases = []
+    for base_order, base_data in bases:
+        for perm in itertools.permutations(start):
+            if perm == base_order:
+                continue
+            cases.append({"data": base_data, "order": fixed + list(perm), "ref": ref, "_base": fixed + list(base_order)})
+    results = pool.run_cases(_step_pool, cases, timeout=300, seed=report.seed)
+    for c, vs in zip(cases, results):
+        transitions += 1
+        for v in vs:
+            if v["status"] == "harness-error":
+                raise HarnessError(v["detail"])
+            report.status[v["status"]] += 1
+            if v["status"] == "violation":
+                path = ([c["_base"]] if c["_base"] != fixed + list(start) else []) + [c["order"]]
+                report.add_violation(v["clause"], {"kind": "path", "font": which, "path": path}, v["detail"],
+                                     sig=f"{which}:{v['clause']}:{v['detail'].split(':')[-1][:80] if 'differ in' in v['detail'] else ''}")
+        out = vs[0].get("_data") if vs else None
+        if out is not None and tuple(c["order"][len(fixed):]) in seen and seen[tuple(c["order"][len(fixed):])][0] != out:
+            fps.add("path-dependent-bytes")
+    report.extra.setdefault("one_shot_permutations", 0)
+    report.extra["one_shot_permutations"] += len(cases)
     report.states += len(seen)
     report.transitions += transitions
     report.executions += transitions
